@@ -95,8 +95,16 @@ class Check:
         self.obs.append(o)
         return ok
 
-    def floor(self, rule: str, found: int, minimum: int, what: str) -> None:
-        """Instance floor: fewer sites than confirmed by hand means the rule lost its anchor."""
+    def floor(self, rule: str, found: int, minimum: int, what: str, fn: Optional[Fn] = None) -> None:
+        """Instance floor: fewer sites than confirmed by hand means the rule lost its anchor (analysis error).
+        With `fn` given the sites are a *required mechanism inside a located function*: their absence is a violation
+        of the rule (the function is there, the mechanism is not), reported against that function."""
+        if fn is not None:
+            self.ob(rule, fn, fn.node, found >= minimum, f"{fn.qualname} contains the mechanism this rule is about: {what} (at least {minimum})",
+                    detail=f"found {found}; the located function no longer contains it, so the property's mechanism is missing on this path",
+                    construct=f"{fn.qualname}: required {what}")
+            self.analysed.setdefault("instance_counts", {})[f"{rule}: {what}"] = found
+            return
         if found < minimum:
             raise AnalysisError(
                 f"{rule}: found {found} {what}, fewer than the {minimum} confirmed by reading — "
